@@ -157,6 +157,70 @@ def InI31 (n : Int) : Prop := -1073741824 ≤ n ∧ n < 1073741824
 
 instance (n : Int) : Decidable (InI31 n) := by unfold InI31; infer_instance
 
+/-! ## Identity comparisons of references (variant tests, `==` on objects) -/
+
+/-- run-time values of the emitted TypeScript that can meet in an identity comparison: a number
+(an int, or an i31 variant tag printed as `2k+1`), an array with an identity (struct, unboxed
+payload, `Vec`, `_Str = [tag, raw]`), and the raw JS string that only occurs as second element of
+a `_Str`. -/
+inductive JsV
+  | num (n : Int)
+  | raw (s : List Nat)
+  | arr (id : Nat) (es : List JsV)
+
+/-- `ToNumber(ToPrimitive(v))` as far as it can be an integer: an array becomes the comma-joined
+string of its elements, so `[]` is `""` → 0, `[e]` is `String(e)`, two or more elements contain a
+comma → NaN (`none`). A raw string is never coerced on its own (it sits in a two-element array). -/
+def primNum : JsV → Option Int
+  | .num n => some n
+  | .raw _ => none
+  | .arr _ [] => some 0
+  | .arr _ [e] => primNum e
+  | .arr _ (_ :: _ :: _) => none
+
+/-- JS `a == b` (IsLooselyEqual) on these shapes -/
+def looseEq : JsV → JsV → Bool
+  | .num a, .num b => a == b
+  | .arr i _, .arr j _ => i == j
+  | .num a, .arr i es => primNum (.arr i es) == some a
+  | .arr i es, .num b => primNum (.arr i es) == some b
+  | _, _ => false
+
+/-- JS `a === b` -/
+def strictEq : JsV → JsV → Bool
+  | .num a, .num b => a == b
+  | .arr i _, .arr j _ => i == j
+  | _, _ => false
+
+/-- what the emitted TypeScript computes for EQ on reference operands (`lir.rs`, table flag
+`tsRefCmpStrict` extracted on every run; `true` after fix d380f36, before it `==`: C04-F8) -/
+def tsRefEq (a b : JsV) : Bool := if tsRefCmpStrict then strictEq a b else looseEq a b
+
+/-- the same values in WebAssembly: an i31 or a reference to a heap object -/
+inductive WRef
+  | i31 (n : Int)
+  | obj (id : Nat)
+  deriving DecidableEq
+
+def repOf : JsV → WRef
+  | .num n => .i31 n
+  | .raw _ => .obj 0
+  | .arr id _ => .obj id
+
+/-- `ref.eq` -/
+def wasmRefEq (a b : WRef) : Bool := a == b
+
+/-- a value that can be an operand (not a bare raw string) -/
+def IsRefVal : JsV → Prop
+  | .raw _ => False
+  | _ => True
+
+/-- variant test sequence of a `match` whose first arms are the payload-free variants with tags
+`0 … k-1` (printed `1, 3, …`): index of the first tag the value is "equal" to -/
+def firstTag (eq : JsV → Int → Bool) (v : JsV) : Nat → Nat → Option Nat
+  | _, 0 => none
+  | k, fuel + 1 => if eq v (2 * k + 1) then some k else firstTag eq v (k + 1) fuel
+
 /-! ## String constants -/
 
 /-- code points (Unicode scalar values) of a source text -/
@@ -206,23 +270,50 @@ def utf8Decode : List Nat → List Nat
 termination_by l => l.length
 decreasing_by all_goals simp_wf <;> omega
 
-/-- WebAssembly: the content's UTF-8 bytes in the data segment, read back byte by byte and decoded
-as UTF-8 by the loader; the JS string holds the UTF-16 code units. -/
+/-- the character an escape letter stands for (`string_constant_bytes`, `wasm_lowering.rs`, fix 9fd2988) -/
+def escChar (e : Nat) : Option Nat :=
+  if e = 116 then some 9 else if e = 118 then some 11 else if e = 48 then some 0
+  else if e = 98 then some 8 else if e = 102 then some 12 else if e = 110 then some 10
+  else if e = 114 then some 13 else if e = 92 then some 92 else none
+
+/-- `string_constant_bytes`: the characters the source text of the literal denotes -/
+def wasmUnescape : Text → Text
+  | [] => []
+  | 92 :: [] => [92]
+  | 92 :: e :: r =>
+    match escChar e with
+    | some c => c :: wasmUnescape r
+    | none => 92 :: e :: wasmUnescape r
+  | c :: r => c :: wasmUnescape r
+
+/-- WebAssembly: the UTF-8 bytes of the denoted characters in the data segment, read back byte by
+byte and decoded as UTF-8 by the loader; the JS string holds the UTF-16 code units. (Before fix
+9fd2988 the raw source text was stored: finding C04-F2.) -/
 def wasmDecode (s : Text) : List Nat :=
-  (utf8Decode ((s.flatMap utf8).map byteToU8)).flatMap utf16
+  (utf8Decode (((wasmUnescape s).flatMap utf8).map byteToU8)).flatMap utf16
 
 def isDigit (c : Nat) : Bool := 48 ≤ c && c ≤ 57
 
 /-- TypeScript: the content is pasted between back quotes; JS "cooks" it (ECMAScript 12.9.6
 Template Literal Lexical Components). `none`: not a single substitution-free template literal
 (a back quote closes it, `${` opens a substitution) or an escape that is a SyntaxError in a
-template (`\0` before a digit, `\1`…`\9`, `\x`, `\u` — the latter two not modelled further). -/
+template (`\0` before a digit, `\1`…`\9`, malformed `\x`, `\u` — the last not modelled further). -/
+def hexDigitVal (c : Nat) : Option Nat :=
+  if 48 ≤ c ∧ c ≤ 57 then some (c - 48)
+  else if 97 ≤ c ∧ c ≤ 102 then some (c - 87)
+  else if 65 ≤ c ∧ c ≤ 70 then some (c - 55)
+  else none
+
 def tsCook : Text → Option (List Nat)
   | [] => some []
   | 96 :: _ => none
   | 36 :: 123 :: _ => none
   | 92 :: [] => none
   | 92 :: 13 :: 10 :: rest => tsCook rest                   -- line continuation \<CR><LF>
+  | 92 :: 120 :: h1 :: h2 :: rest =>                         -- \xHH
+    match hexDigitVal h1, hexDigitVal h2 with
+    | some a, some b => (tsCook rest).map ((16 * a + b) :: ·)
+    | _, _ => none
   | 92 :: c :: rest =>
     if c = 110 then (tsCook rest).map (10 :: ·)            -- \n
     else if c = 116 then (tsCook rest).map (9 :: ·)        -- \t
@@ -241,14 +332,23 @@ def tsCook : Text → Option (List Nat)
 termination_by s => s.length
 decreasing_by all_goals simp_wf <;> omega
 
-/-- `Sources::pretty_print` (`lir.rs:662-672`, after fix 0e855e5): the content is pasted between
-back quotes with every back quote and every `${` escaped by a backslash
-(`.replace('`', "\\`").replace("${", "\\${")`; before the fix it was pasted as is: finding C04-F3). -/
+/-- `template_literal_text` (`lir.rs`, after fixes 0e855e5 and 9fd2988): the text written between the
+back quotes. Escape sequences are kept (JS cooks them to the characters the specification
+prescribes); a back quote and `${` are escaped, a raw CR is written `\\r`, and `\\0` before a digit
+(an octal escape, SyntaxError in a template) is written `\\x00`. Before the fixes the content was
+pasted as is (findings C04-F2, C04-F3). -/
 def tsEscape : Text → Text
   | [] => []
+  | 92 :: 48 :: d :: r =>
+    if isDigit d then 92 :: 120 :: 48 :: 48 :: tsEscape (d :: r) else 92 :: 48 :: tsEscape (d :: r)
+  | 92 :: n :: r => 92 :: n :: tsEscape r
+  | 92 :: [] => [92]
   | 96 :: r => 92 :: 96 :: tsEscape r
-  | 36 :: 123 :: r => 92 :: 36 :: 123 :: tsEscape r
+  | 36 :: 123 :: r => 92 :: 36 :: tsEscape (123 :: r)
+  | 13 :: r => 92 :: 114 :: tsEscape r
   | c :: r => c :: tsEscape r
+termination_by s => s.length
+decreasing_by all_goals simp_wf <;> omega
 
 /-- the JS string the emitted TypeScript holds for a constant with this content -/
 def tsDecode (s : Text) : Option (List Nat) := tsCook (tsEscape s)
@@ -410,11 +510,14 @@ def wReserve (w : WVec) (min : Nat) : WVec :=
     let c3 := if c2 < 4 then 4 else c2
     { w with data := w.data.take w.len ++ List.replicate (c3 - w.len) none }
 
-/-- one call, including the boxing (`ref.i31`) / unboxing (`$__$unwrapI31`) at the call site -/
-def wasmVecStep (w : WVec) : VOp → WVec × VRes
+/-- one call, including the boxing / unboxing at the call site. `box` is what a stored element
+looks like when it is read back: `i31wrap` for `Vec<int>` (`ref.i31` then `$__$unwrapI31`), the
+identity for a `Vec` of references (elements are then object identities; `ref.cast` does not change
+them, `wasm_lowering.rs:330-343`). -/
+def wasmVecStep (box : Int → Int) (w : WVec) : VOp → WVec × VRes
   | .push v =>
     let w1 := wReserve w (w.len + 1)
-    ({ data := w1.data.set w.len (some (i31wrap v)), len := w.len + 1 }, .unit)
+    ({ data := w1.data.set w.len (some (box v)), len := w.len + 1 }, .unit)
   | .pop =>
     if w.len = 0 then (w, .fail POP_EMPTY)
     else
@@ -429,7 +532,7 @@ def wasmVecStep (w : WVec) : VOp → WVec × VRes
       | some n => (w, .val n)
   | .set i v =>
     if i < 0 ∨ i ≥ w.len then (w, .fail OOB)
-    else ({ w with data := w.data.set i.toNat (some (i31wrap v)) }, .unit)
+    else ({ w with data := w.data.set i.toNat (some (box v)) }, .unit)
   | .len => (w, .val w.len)
   | .reserve n => (wReserve w n.toNat, .unit)   -- `i32.le_s min cap`: a negative `min` never grows
 
@@ -437,7 +540,7 @@ def wasmVecStep (w : WVec) : VOp → WVec × VRes
 def wasmCapacity (w : WVec) : Nat := w.data.length
 
 /-- `$__Vec$of` with the argument boxed at the call site -/
-def wasmVecOf (v : Int) : WVec := ⟨[some (i31wrap v)], 1⟩
+def wasmVecOf (box : Int → Int) (v : Int) : WVec := ⟨[some (box v)], 1⟩
 
 /-- `$__Vec$withCapacity`; a negative capacity is a huge unsigned array size (engine trap): `none` -/
 def wasmVecWithCapacity (n : Int) : Option WVec :=
@@ -496,11 +599,11 @@ def tsVecRun : List Int → List VOp → List VRes
     | (_, .fail m) => [.fail m]
     | (t', r) => r :: tsVecRun t' ops
 
-def wasmVecRun : WVec → List VOp → List VRes
+def wasmVecRun (box : Int → Int) : WVec → List VOp → List VRes
   | _, [] => []
   | w, op :: ops =>
-    match wasmVecStep w op with
+    match wasmVecStep box w op with
     | (_, .fail m) => [.fail m]
-    | (w', r) => r :: wasmVecRun w' ops
+    | (w', r) => r :: wasmVecRun box w' ops
 
 end SamVerif.Backends
